@@ -75,6 +75,7 @@ type VC struct {
 	fmtIDs         map[string]int
 	sprintfFormats map[string]string
 	owned          []string // objects declared with `owns` (terms at function entry)
+	newHeaps       []string // see newFieldHeaps
 	recHeaps       map[string]string // heap components read while a fold body is translated
 	trivial        map[string]bool   // obligations whose goal was decided during generation
 }
@@ -662,6 +663,7 @@ func (ex *Exec) newFrame(fn *ssa.Function, depth int, caller *Frame) *Frame {
 	ex.vc.frameCtr++
 	fr := &Frame{id: ex.vc.frameCtr, fn: fn, vals: map[ssa.Value]Val{}, depth: depth, caller: caller}
 	fr.loops, fr.loopBody = findLoops(fn)
+	ex.vc.prog.remapLoops(fn, fr.loops, fr.loopBody)
 	return fr
 }
 
